@@ -131,6 +131,13 @@ CRIT_FLAGS = {'maxsize': '-maxsize', 'minsize': '-minsize', 'gen': '-gen', 'gre'
               'mincost': '-mincost', 'minsqcost': '-minsqcost', 'lmb': '-lmb', 'lsb': '-lsb',
               'mincostlsb': '-mincostlsb'}
 CRIT_NAMES = list(CRIT_FLAGS)
+# the README documents a short and a long spelling of every solver flag
+LONG_FLAGS = {'-f': '-filename', '-na': '-numagents', '-twopl': '-twosidedpreferencelists',
+              '-pc': '-projectclosures', '-stab': '-stability', '-maxsize': '-maximisesize',
+              '-minsize': '-minimisesize', '-gen': '-generous', '-gre': '-greedy',
+              '-mincost': '-minimisecost', '-minsqcost': '-minimisesquaredcost',
+              '-lmb': '-loadmaxbalanced', '-lsb': '-loadsumbalanced',
+              '-mincostlsb': '-minimisecostloadsumbalanced', '-bf': '-bruteforce'}
 
 
 @st.composite
@@ -140,9 +147,10 @@ def criterion_args(draw, name, maxrank, mult_max=3):
                                                      max_size=1)))
     if name == 'gre':
         return draw(st.one_of(st.just([]), st.lists(st.integers(1, maxrank + 2), min_size=1,
-                                                     max_size=1)))
+                                                     max_size=1), st.just([99])))
     if name in ('mincost', 'minsqcost', 'mincostlsb'):
-        return draw(st.lists(st.integers(0, mult_max), min_size=0, max_size=2))
+        return draw(st.lists(st.sampled_from(list(range(mult_max + 1)) * 3 + [7, 50, 1000]),
+                             min_size=0, max_size=2))
     return []
 
 
@@ -174,8 +182,9 @@ def option_sets(draw, inst, min_crit=0, max_crit=4, stab=None, pc=None, twopl=No
     flags = ['twopl'] * bool(twopl) + ['stab'] * bool(stab) + ['pc'] * bool(pc) + \
         ['f', 'na'] + ['crit%d' % i for i in range(len(crit))]
     order = list(draw(st.permutations(flags)))
+    long_flags = draw(st.sampled_from([None, None, [1], [0, 1], [1, 0, 0], [1, 1, 0]]))
     return {'twopl': bool(twopl), 'stab': bool(stab), 'pc': bool(pc), 'crit': crit,
-            'order': order}
+            'order': order, 'long_flags': long_flags}
 
 
 def build_argv(opts, filename, na, bf=False):
@@ -199,6 +208,15 @@ def build_argv(opts, filename, na, bf=False):
             argv += [CRIT_FLAGS[name], str(pos)] + [str(x) for x in extras]
     if bf:
         argv.append('-bf')
+    spelling = opts.get('long_flags')
+    if spelling:
+        # spelling: list of 0/1 cycled over the flags (1 = long documented name)
+        k = 0
+        for i, tok in enumerate(argv):
+            if tok in LONG_FLAGS:
+                if spelling[k % len(spelling)]:
+                    argv[i] = LONG_FLAGS[tok]
+                k += 1
     return argv
 
 
@@ -221,7 +239,8 @@ def noises(draw):
                                   max_size=3)),
             'trail': draw(st.lists(st.sampled_from(['', '', ' ', '\t', '  ']), min_size=1,
                                    max_size=3)),
-            'info': draw(st.booleans()), 'final_newline': draw(st.booleans())}
+            'info': draw(st.booleans()), 'final_newline': draw(st.booleans()),
+            'blank_tail': draw(st.sampled_from([0, 0, 1, 3]))}
 
 
 def instance_labels(inst, opts=None):
